@@ -722,6 +722,108 @@ def none_use(ctx):
         raise AnalysisError("C03.8 matched %d uses" % n)
 
 
+# ---------------------------------------------------------------------------- C03.10 / C03.11
+def html_names_need_html_namespace(ctx):
+    """C03.10: resetInsertionMode decides by element *name*; the standard's names are HTML elements, so every name test on a
+    node that is not the context element must be dominated by the filter that skips nodes outside the default namespace
+    (otherwise a foreign element called `select` / `head` / ... reaches `assert self.innerHTML` in a document parse)."""
+    r = ctx.r
+    f = ctx.repo.func(PARSER_REL, "HTMLParser.resetInsertionMode")
+    cfg = CFG(f.node)
+    tests = [n for n in cfg.nodes if n.kind == "test" and isinstance(n.ast, ast.Compare) and norm(n.ast.left) == "nodeName"]
+    if len(tests) < 2:
+        raise AnalysisError("resetInsertionMode: name tests not found")
+
+    def filtered(n, lab):
+        if n.kind != "test":
+            return False
+        t = norm(n.ast)
+        if t == "last" and lab is True:
+            return True           # the context element of a fragment: its name is given by the caller
+        if "namespace" in t and "defaultNamespace" in t and isinstance(n.ast, ast.Compare):
+            neq = isinstance(n.ast.ops[0], ast.NotEq)
+            return lab is (False if neq else True)
+        return False
+    for t in tests:
+        r.check("C03.10", cfg.dominated_by(t, filtered), "name-test-after-namespace-filter::%s" % norm(t.ast)[:50],
+                "%s:%d" % (PARSER_REL, t.lineno),
+                "resetInsertionMode tests `%s` before skipping elements outside the HTML namespace: a foreign element with that "
+                "name (e.g. <svg><select>) is taken for the HTML element (AssertionError in a document parse)" % norm(t.ast)[:60],
+                detail={"test": norm(t.ast)[:60]})
+
+
+def none_argument(ctx):
+    """C03.11: a value that a function can return as None (a None-initialised local returned inside a tuple) is not passed to a
+    parameter that every implementation dereferences without a None test."""
+    r = ctx.r
+    pm = model(ctx)
+    base = ctx.repo.module("treebuilders/base.py")
+    # (function name, tuple index) whose returned component may be None
+    maybe_none = {}
+    for f in base.all_functions:
+        inits = {t.id for s in walk_no_nested(f.node) if isinstance(s, ast.Assign) and isinstance(s.value, ast.Constant)
+                 and s.value.value is None for t in s.targets if isinstance(t, ast.Name)}
+        if not inits:
+            continue
+        cfg = CFG(f.node)
+        for rt in [n for n in cfg.stmt_nodes() if n.kind == "stmt" and isinstance(n.ast, ast.Return) and isinstance(n.ast.value, ast.Tuple)]:
+            for i, e in enumerate(rt.ast.value.elts):
+                if isinstance(e, ast.Name) and e.id in inits:
+                    # is there a path from the None initialisation to the return without a non-None assignment?
+                    init_nodes = [n for n in cfg.stmt_nodes() if n.kind == "stmt" and isinstance(n.ast, ast.Assign) and
+                                  isinstance(n.ast.value, ast.Constant) and n.ast.value.value is None and
+                                  any(isinstance(t, ast.Name) and t.id == e.id for t in n.ast.targets)]
+                    def reassigned(n, v=e.id):
+                        return n.kind == "stmt" and isinstance(n.ast, ast.Assign) and any(isinstance(t, ast.Name) and t.id == v for t in n.ast.targets) \
+                            and not (isinstance(n.ast.value, ast.Constant) and n.ast.value.value is None)
+                    par = cfg.reach_forward(init_nodes, reassigned)
+                    if rt.id in par:
+                        maybe_none[(f.name, i)] = f
+    # parameters dereferenced without a None test by every node implementation
+    deref = {}
+    for cls in pm.node_classes:
+        for mn, m in cls.methods.items():
+            for pi, p in enumerate(m.params()[1:]):
+                uses = [x for x in walk_no_nested(m.node) if isinstance(x, ast.Attribute) and isinstance(x.value, ast.Name) and x.value.id == p]
+                if not uses:
+                    continue
+                cfg = CFG(m.node)
+                guarded = all(cfg.dominated_by(nd, lambda n, lab, p=p: n.kind == "test" and (
+                    (norm(n.ast) == p and lab is True) or (norm(n.ast) == "%s is None" % p and lab is False) or
+                    (norm(n.ast) == "%s is not None" % p and lab is True))) for u in uses for nd in cfg.locate(u))
+                if not guarded:
+                    deref.setdefault((mn, pi), []).append(cls.name)
+    n = 0
+    for rel in (PARSER_REL, "treebuilders/base.py"):
+        for f in ctx.repo.module(rel).all_functions:
+            unpack = {}
+            for s in walk_no_nested(f.node):
+                if isinstance(s, ast.Assign) and isinstance(s.targets[0], ast.Tuple) and isinstance(s.value, ast.Call) and \
+                        isinstance(s.value.func, ast.Attribute):
+                    for i, e in enumerate(s.targets[0].elts):
+                        if isinstance(e, ast.Name) and (s.value.func.attr, i) in maybe_none:
+                            unpack[e.id] = (s.value.func.attr, i)
+            if not unpack:
+                continue
+            cfg = CFG(f.node)
+            for c in walk_no_nested(f.node):
+                if not (isinstance(c, ast.Call) and isinstance(c.func, ast.Attribute)):
+                    continue
+                for ai, a in enumerate(c.args):
+                    if isinstance(a, ast.Name) and a.id in unpack and (c.func.attr, ai) in deref:
+                        n += 1
+                        v = a.id
+                        ok = all(cfg.dominated_by(nd, lambda m, lab, v=v: m.kind == "test" and (
+                            (norm(m.ast) == "%s is None" % v and lab is False) or (norm(m.ast) == "%s is not None" % v and lab is True)
+                            or (norm(m.ast) == v and lab is True))) for nd in cfg.locate(c))
+                        r.check("C03.11", ok, "none-argument::%s::%s(%s)" % (f.qual, c.func.attr, v), "%s:%d" % (rel, c.lineno),
+                                "`%s` comes from %s() and can be None, but is passed to %s(), whose implementations (%s) dereference it "
+                                "unconditionally: AttributeError on that path" % (v, unpack[v][0], c.func.attr, ", ".join(sorted(set(deref[(c.func.attr, ai)])))),
+                                detail={"value": v, "callee": c.func.attr})
+    if n < 2:
+        raise AnalysisError("C03.11 matched %d call sites" % n)
+
+
 # ---------------------------------------------------------------------------- C03.9
 def reprocess_progress(ctx):
     """C03.9: a handler that hands the token back for reprocessing (`return token`) has, on every path to that return, changed
@@ -808,6 +910,8 @@ def run(ctx):
     r.rule("C03.5", "pop loops / deep indexes on the open-element stack are dominated by a scope test or sentinel", floor=20)
     r.rule("C03.7", "a node detached from the tree while on the stack of open elements is removed from the stack on every path", floor=1)
     r.rule("C03.8", "a local initialised to None and tested elsewhere is not dereferenced on a path on which it can be None", floor=5)
+    r.rule("C03.10", "name tests in resetInsertionMode apply to HTML-namespace elements only", floor=2)
+    r.rule("C03.11", "a possibly-None return component is not passed to a parameter that is dereferenced unconditionally", floor=2)
     r.rule("C03.9", "a handler that hands the token back for reprocessing has changed the insertion mode / stack first", floor=40)
     r.rule("C03.6", "every phase has a concrete handler for every token kind and tag name", floor=100)
     constkey(ctx)
@@ -817,6 +921,8 @@ def run(ctx):
     detached_leaves_stack(ctx)
     none_use(ctx)
     reprocess_progress(ctx)
+    html_names_need_html_namespace(ctx)
+    none_argument(ctx)
     dispatch_total(ctx)
     from . import c03_tok
     c03_tok.run(ctx)
@@ -866,6 +972,10 @@ def mutants():
         T("cdata-no-eof-exit", "_tokenizer.py", "            if char == EOF:\n                break\n            else:\n                assert char == \">\"", "            if False:\n                break\n            else:\n                pass", "C03.3"),
         T("reprocess-without-progress", "html5parser.py", "    def startTagHead(self, token):\n        self.parser.parseError(\"unexpected-start-tag\", {\"name\": token[\"name\"]})\n\n    def startTagOther(self, token):\n        self.anythingElse()\n        return token",
           "    def startTagHead(self, token):\n        self.parser.parseError(\"unexpected-start-tag\", {\"name\": token[\"name\"]})\n        return token\n\n    def startTagOther(self, token):\n        self.anythingElse()\n        return token", "C03.9"),
+        T("name-test-before-ns-filter", "html5parser.py", "            if not last and node.namespace != self.tree.defaultNamespace:\n                continue\n\n            # Check for conditions that should only happen in the innerHTML\n            # case\n            if nodeName in (\"select\", \"colgroup\", \"head\", \"html\"):\n                assert self.innerHTML\n",
+          "            if nodeName in (\"select\", \"colgroup\", \"head\", \"html\"):\n                assert self.innerHTML\n\n            if not last and node.namespace != self.tree.defaultNamespace:\n                continue\n", "C03.10"),
+        T("none-insertbefore", "html5parser.py", "                if insertBefore is None:\n                    parent.appendChild(lastNode)\n                else:\n                    parent.insertBefore(lastNode, insertBefore)",
+          "                parent.insertBefore(lastNode, insertBefore)", "C03.11"),
         T("variant-typo", "html5parser.py", 'return not self.tree.elementInScope("tr", variant="table")', 'return not self.tree.elementInScope("tr", variant="tables")', "C03.1"),
     ]
 
